@@ -20,6 +20,12 @@ var fltPool = []float64{0, math.Copysign(0, -1), 1, 1.5, -2.5, 0.1, 1e3, math.Ma
 
 func genValue(t reflect.Type, depth int) reflect.Value {
 	v := reflect.New(t).Elem()
+	if depth < -1 {
+		switch t.Kind() {
+		case reflect.Slice, reflect.Map, reflect.Ptr, reflect.Interface, reflect.Struct, reflect.Array:
+			return v // recursive types (S5) stop here with the zero value
+		}
+	}
 	switch t.Kind() {
 	case reflect.Bool:
 		v.SetBool(rng.Intn(2) == 0)
@@ -373,13 +379,22 @@ func leafLiteral(v reflect.Value) string {
 
 var patterns = []string{"^a", "b+", "[", "", "o$"}
 
-func genMatch(d interface{}, tag string, prefix string, leafOf reflect.Value) string {
+// genSelLit picks a selector (mostly resolving, sometimes absent), a literal drawn from the selected leaf most of the
+// time, and a regexp pattern; leaf is the selected value (invalid when unknown).
+func genSelLit(d interface{}, tag string, prefix string, leafOf reflect.Value) (ps, lit, pat string, leaf reflect.Value) {
+	absentPct = absentPctDefault
+	return genSelLitP(d, tag, prefix, leafOf)
+}
+
+var absentPctDefault = 8
+var absentPct = 8
+
+func genSelLitP(d interface{}, tag string, prefix string, leafOf reflect.Value) (ps, lit, pat string, leaf reflect.Value) {
 	var pi pathInfo
-	var ps string
 	ok := false
 	for try := 0; try < 10 && !ok; try++ {
 		pi = randomPath(d, tag)
-		if rng.Intn(12) == 0 && len(pi.parts) > 0 { // make it absent somewhere
+		if rng.Intn(100) < absentPct && len(pi.parts) > 0 { // make it absent somewhere
 			j := rng.Intn(len(pi.parts))
 			pi.parts[j] = []string{"zz", "Nope", "99", "H", "u"}[rng.Intn(5)]
 			pi.parts = pi.parts[:j+1+rng.Intn(len(pi.parts)-j)]
@@ -403,18 +418,23 @@ func genMatch(d interface{}, tag string, prefix string, leafOf reflect.Value) st
 			}
 		}
 	}
-	// choose an operator that fits the selected leaf most of the time
-	leaf := pi.leaf
+	leaf = pi.leaf
 	for leaf.IsValid() && (leaf.Kind() == reflect.Interface || leaf.Kind() == reflect.Ptr) && !leaf.IsNil() {
 		leaf = leaf.Elem()
 	}
-	lit := renderLit(leafLiteral(pi.leaf))
+	lit = renderLit(leafLiteral(pi.leaf))
+	pat = quote(patterns[rng.Intn(len(patterns))])
+	return
+}
+
+func genMatch(d interface{}, tag string, prefix string, leafOf reflect.Value) string {
+	ps, lit, pat, leaf := genSelLit(d, tag, prefix, leafOf)
+	// choose an operator that fits the selected leaf most of the time
 	fit := rng.Intn(100) < 85
 	kind := reflect.Invalid
 	if leaf.IsValid() {
 		kind = leaf.Kind()
 	}
-	pat := quote(patterns[rng.Intn(len(patterns))])
 	if fit {
 		switch kind {
 		case reflect.String:
